@@ -206,6 +206,7 @@ def parse_kani(text):
         "verif_s": None,
         "unwind_fail": False,
         "error": None,
+        "ignored_fail": 0,
     }
     cur = None
     for line in text.splitlines():
@@ -226,7 +227,11 @@ def parse_kani(text):
             m = RE_LOC.match(line)
             if m:
                 cur["loc"] = m.group(1)
-                if cur["status"] in ("FAILURE", "UNDETERMINED") and ".cover." not in cur["id"]:
+                if cur["status"] == "FAILURE" and cur["id"].startswith("feraiseexcept."):
+                    # assertion inside CBMC's C-library model of feraiseexcept (reached from its fma model
+                    # for 0*inf / inf-inf): not a check of the program under analysis
+                    r["ignored_fail"] += 1
+                elif cur["status"] in ("FAILURE", "UNDETERMINED") and ".cover." not in cur["id"]:
                     r["failed"].append(cur)
                     if "unwinding assertion" in cur["desc"]:
                         r["unwind_fail"] = True
@@ -337,7 +342,10 @@ def run_harness(h, logdir, timeout_scale=1.0):
             r["outcome"] = "pass"
     elif r["verdict"] == "FAILED":
         real = [c for c in r["failed"] if c["status"] == "FAILURE" and "unwinding assertion" not in c["desc"]]
-        if r["error"] or not r["failed"]:
+        if not r["error"] and not r["failed"] and r["ignored_fail"] and r["checks"] > r["ignored_fail"] and (not r["cover_total"] or r["cover_sat"] == r["cover_total"]):
+            r["outcome"] = "pass"
+            r["why"] = "only CBMC's feraiseexcept model assertion failed (ignored)"
+        elif r["error"] or not r["failed"]:
             r["outcome"] = "inconclusive"
             r["why"] = r["error"] or "FAILED without a failed check (solver error / OOM)"
         elif r["unwind_fail"] and not real:
